@@ -23,7 +23,7 @@ func init() {
 }
 
 func runC07(ctx *Ctx) {
-	n := ctx.N(1200, 24000)
+	n := ctx.N(3000, 30000)
 	for _, t := range ctx.types() {
 		t := t
 		ctx.CheckRapid(string(t.Name), n, func(rt *rapid.T) *Case {
